@@ -387,3 +387,27 @@ Theorem held_shift_lost_after_forced_reset :
   fold_left (phys_step 42) (ex20_ops 10001) false = true /\
   down 42 false (snd (zrun ex20_cfg z_init (ex20_ops 10001))) = false.
 Proof. split; vm_compute; reflexivity. Qed.
+
+(* ---------- typing that does not form a chord passes through unchanged ---------- *)
+(* while zippychord is not enabled (after a key outside every chord, or while waiting to be re-enabled) a press is written as it is *)
+Theorem disabled_passes_through c z osc :
+  z_en z <> ZEnabled -> z_ss_sent z = false -> snd (z_press c z osc) = [ZP osc].
+Proof.
+  intros Hen Hss. unfold z_press. destruct (zentries (zc_chords c)); [reflexivity|].
+  destruct (osc =? 42); [reflexivity|]. destruct (osc =? 54); [reflexivity|]. destruct (osc =? 100); [reflexivity|].
+  destruct (is_zippy_ignored osc); [reflexivity|]. rewrite Hss. cbn [andb].
+  destruct (z_en z); [contradiction| |]; reflexivity.
+Qed.
+
+(* a key that, together with the keys held, is part of no chord: it is written as it is, nothing is erased, and zippychord is
+   switched off until the keys are let go *)
+Theorem outside_key_passes_through c z osc :
+  z_en z = ZEnabled -> z_ss_sent z = false -> z_prio z = None ->
+  osc <> 42 -> osc <> 54 -> osc <> 100 -> is_zippy_ignored osc = false ->
+  zlookup (zc_chords c) (sorted_insert osc (z_keys z)) = ZNeither ->
+  snd (z_press c z osc) = [ZP osc] /\ (zentries (zc_chords c) <> [] -> z_en (fst (z_press c z osc)) = ZDisabled).
+Proof.
+  intros Hen Hss Hp N1 N2 N3 Hi Hl. unfold z_press. destruct (zentries (zc_chords c)) as [|e0 es]; [split; [reflexivity|intros X; contradiction]|].
+  destruct (N.eqb_spec osc 42); [contradiction|]. destruct (N.eqb_spec osc 54); [contradiction|]. destruct (N.eqb_spec osc 100); [contradiction|].
+  rewrite Hi, Hss, Hen, Hp. cbn [andb zen_eqb negb]. cbn iota. rewrite Hl. cbn [fst snd app]. split; [reflexivity|intros _; reflexivity].
+Qed.
